@@ -15,7 +15,7 @@ ID = 'C06'
 
 MANIFEST = {
     'engine': 'symx',
-    'text': 'Bounded symbolic exploration of the real get_combinations_from_columns / prior_combinations_sample / mixed_rank_graph code on real pandas frames: the number of columns, the position of the label, which columns are 3MR relation columns, the heuristic family (scoring, 3mr, Constant), target-only vs pairwise mode and the per-batch cap are symbolic and decided by the solver; the pair scorer is a token function with a different value per ORDERED pair, so a mirrored triplet can only carry the same score if it was produced by mirroring. On every path the emitted triplets are compared with the specification of the statement (names in the feature space, both orientations with equal scores, exact pair set when the cap allows, exactly cap evaluations otherwise, Constant: each listed pair once with 0). When the cap does not bind, three further mini-batches are run in the same process state and each must again cover the requested pairs.',
+    'text': 'Bounded symbolic exploration of the real get_combinations_from_columns / prior_combinations_sample / mixed_rank_graph code on real pandas frames: the number of columns, the position of the label, which columns are 3MR relation columns, the heuristic family (scoring, 3mr, Constant), target-only vs pairwise mode and the per-batch cap are symbolic and decided by the solver; the pair scorer is a token function with a different value per ORDERED pair, so a mirrored triplet can only carry the same score if it was produced by mirroring. On every path the emitted triplets are compared with the specification of the statement (names in the feature space, both orientations with equal scores, exact pair set when the cap allows, exactly cap evaluations otherwise, Constant: each listed pair once with 0). When the cap does not bind, three further mini-batches are run in the same process state and each must again cover the requested pairs. Also symbolic: column names that merely contain the letters AND_REL, the size the pool reports (1..3), the spelling of the scope flag (documented texts, another capitalisation, a boolean: the graph must then be that of ONE of the two modes) and whether the scorer returns NaN for every pair of one column.',
     'note': 'Configurations of <=4 columns (quick) / <=5 (thorough); inputs concretised by solver decisions (bounded-exhaustive, completeness certified); multiplicity of diagonal pairs is not constrained (the statement does not fix it); in 3mr+pairwise mode the extra (relation, relation) diagonal entries the code adds are accepted; pool = serial stub with the order-preserving contract.',
     'technique': 'solver-driven bounded exploration of the real Python code (z3 decides every configuration choice; coverage certificate), specification oracle',
 }
